@@ -58,7 +58,9 @@ func objectIndexedByMarkedKey(expr hclsyntax.Expression, ctxs ...*hcl.EvalContex
 func hasMarkedNullNested(v cty.Value) bool {
 	found := false
 	_ = cty.Walk(v, func(p cty.Path, pv cty.Value) (bool, error) {
-		if len(p) > 0 && pv.IsMarked() {
+		// (a marked null at the top counts too: the expression may wrap it in a constructor
+		// whose result is then converted, e.g. `c ? [secret] : list_of_strings`)
+		if pv.IsMarked() {
 			u, _ := pv.Unmark()
 			if u.IsNull() {
 				found = true
